@@ -50,7 +50,7 @@ G_GROUPS = {
     # XML scope (root fragment x): from the empty fragment (c*, f*, g*), with content of another origin prepared before the
     # manager starts (p*: trimmed edit menu), deep histories of ONE attribute of one element (xk*)
     "c3x": ("G_undo_c3x.cfg", "x", {"quick": 400, "thorough": None}),
-    "p2x": ("G_undo_p2x.cfg", "xp", {"quick": 300, "thorough": None}),
+    "p2x": ("G_undo_p2x.cfg", "xp", {"quick": 250, "thorough": None}),
     "f2x": ("G_undo_f2x.cfg", "x", {"quick": 400, "thorough": 15000}),
     "xk4": ("G_undo_xk4.cfg", "x", {"quick": 200, "thorough": None}),
     "pf2x": ("G_undo_pf2x.cfg", "xp", {"thorough": 15000}),
@@ -84,16 +84,21 @@ XML_GROUPS = [g for g in G_GROUPS if G_GROUPS[g][1] in ("x", "xp", "wx")]
 # between them: one capture step anyway) is ONE transaction (step `umulti`); in every second variant the transaction also edits
 # a root outside the scope.  name -> (base group, {tier: sample size})
 MULTI_GROUPS = {
-    "mt": ("c3t", {"quick": 80, "thorough": 3000}),
-    "ma": ("c3a", {"quick": 80, "thorough": 3000}),
-    "mm": ("c3m", {"quick": 80, "thorough": 3000}),
-    "mx": ("c3x", {"quick": 80, "thorough": 3000}),
+    "mt": ("c3t", {"quick": 60, "thorough": 3000}),
+    "ma": ("c3a", {"quick": 60, "thorough": 3000}),
+    "mm": ("c3m", {"quick": 60, "thorough": 3000}),
+    "mx": ("c3x", {"quick": 60, "thorough": 3000}),
 }
 TIERS = {
-    "quick": {"gen": ["c3t", "c3a", "c3m", "k4", "f2t", "f2a", "f2m", "c3x", "p2x", "f2x", "xk4", "w2t", "w2a", "w2m", "w2x", "wz3t", "wz3a", "wf1x"],
-              "multi": ["mt", "ma", "mm", "mx"], "deep": 2, "deep_n": 400,
-              "deepx": 1, "deepx_n": 150},
-    "thorough": {"gen": list(G_GROUPS), "multi": list(MULTI_GROUPS), "deep": 12, "deep_n": 1500, "deepx": 6, "deepx_n": 1500},
+    # "combined": several small groups share ONE X + V run (the fixed cost of a TLC start is paid once)
+    "quick": {"gen": ["c3t", "c3a", "c3m", "k4", "f2t", "f2a", "f2m"],
+              "combined": {"xml": ["c3x", "p2x", "f2x", "xk4", "deepx00"],
+                           "wiggle": ["w2t", "w2a", "w2m", "w2x", "wz3t", "wz3a", "wf1x"],
+                           "multi": ["mt", "ma", "mm", "mx"]},
+              "deep": 2, "deep_n": 400, "deepx": 0, "deepx_n": 100},
+    "thorough": {"gen": [g for g in G_GROUPS if g[0] != "w"], "combined": {"wiggle": [g for g in G_GROUPS if g[0] == "w"],
+                                                                              "multi": list(MULTI_GROUPS)},
+                 "deep": 12, "deep_n": 1500, "deepx": 6, "deepx_n": 1500},
 }
 
 OTHER = {"t": "m", "a": "t", "m": "a", "x": "m"}
@@ -237,7 +242,7 @@ def multi_variant(h, kind, mix):
     return out if merged else None
 
 
-def run_multi(gname, tier, workdir):
+def multi_scheds(gname, tier, workdir):
     base, samples = MULTI_GROUPS[gname]
     kind = G_GROUPS[base][1]
     hists, gstats = gen_hists(base, tier, workdir)
@@ -252,7 +257,30 @@ def run_multi(gname, tier, workdir):
     if n and len(vs) > n:
         rnd = random.Random(_h(vlib.seed(), gname))
         vs = [vs[i] for i in sorted(rnd.sample(range(len(vs)), n))]
-    return run_scheds(gname, make_schedules(vs, gname, kind), tier, workdir)
+    return make_schedules(vs, gname, kind)
+
+
+def run_multi(gname, tier, workdir):
+    return run_scheds(gname, multi_scheds(gname, tier, workdir), tier, workdir)
+
+
+def run_combined(cname, members, tier, workdir):
+    """the schedules of several groups (G groups, multi groups, `deepxNN`) in ONE X + V run; r["parts"] = per member
+    {"n": schedules, "g": G statistics or None}"""
+    scheds, parts = [], {}
+    for g in members:
+        if g in MULTI_GROUPS:
+            sc, gs = multi_scheds(g, tier, workdir), None
+        elif g.startswith("deepx"):
+            sc, gs = deep_schedules(int(g[5:]), TIERS[tier]["deepx_n"], vlib.seed(), xml=True), None
+        else:
+            hists, gs = gen_hists(g, tier, workdir)
+            sc = make_schedules(hists, g, G_GROUPS[g][1])
+        parts[g] = {"n": len(sc), "g": gs}
+        scheds += sc
+    r = run_scheds("%s-%s" % (cname, hashlib.sha256(",".join(members).encode()).hexdigest()[:8]), scheds, tier, workdir)
+    r["parts"] = parts
+    return r
 
 
 def deep_schedules(ix, n, seed, xml=False):
@@ -556,6 +584,7 @@ def check(prop, tier):
         only = set(only.split(","))
         plan["gen"] = [g for g in plan["gen"] if g in only]
         plan["multi"] = [g for g in plan.get("multi", []) if g in only]
+        plan["combined"] = {c: [g for g in ms if g in only] for c, ms in plan.get("combined", {}).items()}
         plan["deep_ix"] = [i for i in range(plan["deep"]) if "deep%02d" % i in only]
         plan["deepx_ix"] = [i for i in range(plan["deepx"]) if "deepx%02d" % i in only]
     results = []
@@ -576,6 +605,24 @@ def check(prop, tier):
         r = run_multi(g, tier, wd)
         results.append(r)
         ev.add_v(r["group"], r["merged"], r["nontrivial"], r["v_wall"])
+    xml_counts = {}
+    for cname, members in plan.get("combined", {}).items():
+        if not members:
+            continue
+        r = run_combined(cname, members, tier, wd)
+        results.append(r)
+        for g, part in r["parts"].items():
+            gs = part["g"]
+            if gs:
+                ev.add_tlc(G_GROUPS[g][0], {"distinct": gs["distinct"], "generated": gs["generated"], "depth": gs["depth"], "wall": gs["wall"],
+                                            "replay": [0] * gs["replay"], "coverage": gs.get("coverage")}, "G")
+                if part["n"] == gs["replay"]:
+                    exhaustive.append(g)
+            if g in XML_GROUPS or g.startswith("deepx") or g == "mx":
+                xml_counts[g] = part["n"]
+        ev.add_v(cname + ":" + "+".join(members), r["merged"], r["nontrivial"], r["v_wall"])
+        for sm in r["samples"]:
+            ev.sample(sm)
     for i in plan.get("deep_ix", range(plan["deep"])):
         r = run_deep(i, tier, wd)
         results.append(r)
@@ -596,8 +643,9 @@ def check(prop, tier):
     ev.cov["exhaustive"] = False
     ev.cov["exhaustive_groups"] = exhaustive
     ev.cov["repeat_per_behaviour"] = REPEAT
-    ev.cov["xml_groups"] = {r["group"]: r["merged"]["cnt"]["beh"] for r in results
-                            if r["group"] in XML_GROUPS or r["group"].startswith("deepx")}
+    xml_counts.update({r["group"]: r["merged"]["cnt"]["beh"] for r in results
+                       if r["group"] in XML_GROUPS or r["group"].startswith("deepx")})
+    ev.cov["xml_groups"] = xml_counts
     ev.cov["harness_build_s"] = round(bt, 1)
     ev.assumptions = ["TLC, CommunityModules", "harness adapters and observation functions (obs.rs, codec.rs, ext/undo.rs)",
                       "hook H1 (yrs::verif) reports the item lists faithfully",
